@@ -1247,28 +1247,12 @@ def prog_key(pr):
 
 
 # ------------------------------------------------------------------------------------------------ running a chunk of programs (one worker)
-WITNESSES = [   # the four known findings (known_findings.json): replayed on every run
-    ('elt', ('ife', ('or', ('a', 'a'), ('not', ('a', 'b'))), ('a', 'c'), ('a', 'd'))),
-    ('elt', ('ife', ('or', ('not', ('a', 'a')), ('a', 'b')), ('a', 'c'), ('a', 'd'))),
-    ('elt', ('ife', ('and', ('not', ('a', 'a')), ('a', 'b')), ('a', 'c'), ('a', 'd'))),
-    ('elt', ('ife', ('not', ('or', ('a', 'a'), ('a', 'b'))), ('a', 'c'), ('a', 'd'))),
-    ('elt', ('ife', ('not', ('and', ('a', 'a'), ('not', ('a', 'b')))), ('a', 'c'), ('a', 'd'))),
-    ('elt', ('ife', ('not', ('ife', ('a', 'a'), ('a', 'b'), ('a', 'c'))), ('a', 'd'), ('a', 'e'))),
-    ('elt', ('ife', ('ife', ('a', 'a'), ('a', 'b'), ('not', ('a', 'c'))), ('a', 'd'), ('a', 'e'))),
-    # if-expression in the test of an if-expression, behind another clause (repaired by fixes/C03-stale-jump-target.diff)
-    ('cond', ('and', ('a', 'a'), ('ife', ('ife', ('a', 'b'), ('a', 'c'), ('a', 'd')), ('a', 'e'), ('a', 'g')))),
-    # constant operand folded away by CPython 3.12 (a test whose two branches continue at the same place)
-    ('cond', ('or', ('a', 'a'), ('lit', '1'))),
-    ('cond', ('not', ('and', ('a', 'a'), ('lit', '0')))),
-    ('cond', ('ife', ('a', 'a'), ('lit', '1'), ('lit', '1'))),
-    ('cond', ('and', ('a', 'b'), ('or', ('a', 'a'), ('lit', 'True')))),
-    ('cond', ('and', ('a', 'b'), ('ife', ('a', 'c'), ('lit', '1'), ('a', 'd')))),
-]
+WITNESSES = []   # shapes listed as known findings, replayed on every run (none at present: all earlier ones are repaired and live in the corpus)
 CORPUS = os.path.join(os.path.dirname(os.path.dirname(os.path.abspath(__file__))), 'corpus', 'C03')
 
 
 def load_corpus():
-    """minimised past failures (DESIGN section 8 row 2, repaired by /repo 08d1b21): run first on every run; a failure here is a regression"""
+    """minimised past failures (repaired by /repo 08d1b21, 23dade6, 2c0dccd, 94f2ccd): run first on every run; a failure here is a regression"""
     out = []
     if os.path.isdir(CORPUS):
         for f in sorted(os.listdir(CORPUS)):
